@@ -1,6 +1,7 @@
-(* extraction of the C05 executable model (Model/Cache.v); ExtrOcamlBasic only *)
+(* extraction of the C05 executable models (Model/Cache.v, Model/C05Entry.v, Model/C05Lru.v); ExtrOcamlBasic only *)
 Require Extraction.
 Require Import ExtrOcamlBasic.
-Require Import Base Cache.
+Require Import Base Overlap Cache C05Entry C05Lru.
 Extraction Language OCaml.
-Extraction "../ocaml/gen/c05_model.ml" drv_doc_of rel_toks run_lint_code run_set_cfg run_evict fresh mkdoc mkclint code_key_eqb.
+Extraction "../ocaml/gen/c05_model.ml" drv_doc_of rel_toks run_lint_code run_set_cfg run_evict fresh mkdoc mkclint code_key_eqb
+  drv_new drv_stored drv_wasm_set_cfg drv_wasm_sync drv_ls_rebuild drv_ignore drv_clear_ignored drv_evict drv_entry_lint drv_effective drv_lru_words.
